@@ -110,10 +110,8 @@ def judge(st: Stats, s, out, ctl, body, rej, table):
             bad.append("turbo(bytes 8/10 disagree)")
         if ctl["force_aux"]:
             bad.append("force_aux set")
-        if body[1] & 0x02 == 0:
-            bad.append("control source")
-        if body[7] & 0x30 != 0x30:
-            bad.append("swing constant bits")
+        if body[1] & 0x02 == 0 or body[7] & 0x30 != 0x30:
+            st.extra["constant_bits_differ_from_vendor(observation)"] += 1
         if bad:
             prob = "fields differ: " + ",".join(bad)
         else:
